@@ -19,8 +19,8 @@ from ioos_qc import qartod
 FNS = list(gen.GENERATORS)
 WHAT = "IoosQc.C01_total (C01.holds) + argument snapshots"
 CARRIERS = {
-    "default": ["nd_f8", "list_none", "list_nan", "tuple_none", "series", "ma_nan", "ma_junk", "nd_obj"],
-    "valid": ["nd_f8", "ma_nan", "ma_junk"],
+    "default": ["nd_f8", "list_none", "list_nan", "tuple_none", "series", "ma_nan", "ma_junk", "ma_mixed", "nd_obj"],
+    "valid": ["nd_f8", "ma_nan", "ma_junk", "ma_mixed"],
     "pressure": ["nd_f8", "list_nan"],
 }
 TCARRIERS = ["dt64ns", "epoch_int", "dtindex", "dt64s", "pydt", "series_naive", "epoch_float", "dtindex_us", "series_ms"]
